@@ -557,20 +557,42 @@ impl Engine for C10 {
                                 if l3[&p.owner] != text {
                                     // input-side feature of this action: the section follows a section of the
                                     // same or a deeper level (then the list becomes a child of that section)
-                                    let tops: Vec<(usize, u8)> = text
-                                        .split('\n')
-                                        .enumerate()
-                                        .filter_map(|(l, ln)| {
-                                            // headings inside quotes count within their quote
-                                            let ln = ln.trim_start_matches(|c| c == '>' || c == ' ');
-                                            let lv = ln.chars().take_while(|c| *c == '#').count();
-                                            if lv > 0 && ln.chars().nth(lv) == Some(' ') { Some((l, lv as u8)) } else { None }
-                                        })
-                                        .collect();
-                                    let me = tops.iter().position(|(l, _)| *l == line as usize);
+                                    // headings with their container: (line, level, quote depth, instance of the
+                                    // quote at that depth); a heading follows only headings of its own container
+                                    let mut tops: Vec<(usize, u8, usize, usize)> = vec![];
+                                    let mut instance: Vec<usize> = vec![0; 8];
+                                    let mut open_depth = 0usize;
+                                    for (l, full) in text.split('\n').enumerate() {
+                                        let mut depth = 0usize;
+                                        let mut rest = full;
+                                        loop {
+                                            let t = rest.trim_start_matches(' ');
+                                            match t.strip_prefix('>') {
+                                                Some(r) => {
+                                                    depth += 1;
+                                                    rest = r;
+                                                }
+                                                None => {
+                                                    rest = t;
+                                                    break;
+                                                }
+                                            }
+                                        }
+                                        let depth = depth.min(7);
+                                        // quotes deeper than this line are closed; re-opening gives a new instance
+                                        for d in (depth + 1)..=open_depth.min(7) {
+                                            instance[d] += 1;
+                                        }
+                                        open_depth = depth;
+                                        let lv = rest.chars().take_while(|c| *c == '#').count();
+                                        if lv > 0 && (rest.chars().nth(lv) == Some(' ') || rest.len() == lv) {
+                                            tops.push((l, lv as u8, depth, instance[depth]));
+                                        }
+                                    }
+                                    let me = tops.iter().position(|t| t.0 == line as usize);
                                     let follows = match me {
-                                        Some(i) if i > 0 => tops[i - 1].1 >= tops[i].1,
-                                        _ => false,
+                                        Some(i) => tops[..i].iter().rev().find(|t| t.2 == tops[i].2 && t.3 == tops[i].3).map(|p| p.1 >= tops[i].1).unwrap_or(false),
+                                        None => false,
                                     };
                                     if follows {
                                         extra_feature = Some("section-follows-same-or-deeper-section");
